@@ -452,11 +452,24 @@ theorem reindex_keeps_label_reads (e : Expr) (hwf : ExprWF e) (hs : ExprSorted e
   exact energy_eq_labelPoly (reindex_wf hwf v) (reindex_sorted hs v) x
 
 /-- the same for a fix: `substitute_variable(v, 0, a)` followed by `reindex_variables(v)` -/
-theorem fix_keeps_label_reads (e : Expr) (hwf : ExprWF e) (hs : ExprSorted e) (v : Nat) (a : Rat) (x : Nat → Rat)
-    (hwf' : ExprWF (e.substitute v 0 a)) :
+theorem fix_keeps_label_reads (e : Expr) (hwf : ExprWF e) (hs : ExprSorted e) (v : Nat) (a : Rat) (x : Nat → Rat) :
     (toEn (applyOp e (.fix v a))).energyCpp x = labelPoly (applyOp e (.fix v a)) x := by
   show (toEn (reindexGen (e.substitute v 0 a) v)).energyCpp x = labelPoly (reindexGen (e.substitute v 0 a) v) x
-  exact reindex_keeps_label_reads _ hwf' (substitute_sorted hs v 0 a) v x
+  exact reindex_keeps_label_reads _ (substitute_wf hwf v 0 a) (substitute_sorted hs v 0 a) v x
+
+/-- the view's own `remove_variable(v)` (`Expression::remove_variable`: positions behind `v` move up, `indices_[*it] -= 1`) and
+    the view's mutators that may append a variable new to the expression (`enforce_variable`): label readings stay the polynomial
+    the loop evaluates -/
+theorem view_mutators_keep_label_reads (e : Expr) (hwf : ExprWF e) (hs : ExprSorted e) (vt : List VT4) (g h : Nat) (b : Rat)
+    (x : Nat → Rat) :
+    (toEn (applyOp e (.viewRemove g))).energyCpp x = labelPoly (applyOp e (.viewRemove g)) x
+    ∧ (toEn (e.addLinear g b)).energyCpp x = labelPoly (e.addLinear g b) x
+    ∧ (toEn (e.setLinear g b)).energyCpp x = labelPoly (e.setLinear g b) x
+    ∧ (toEn (e.addQuadratic vt g h b)).energyCpp x = labelPoly (e.addQuadratic vt g h b) x :=
+  ⟨energy_eq_labelPoly (removeVar_wf hwf g) (removeVar_sorted hs g) x,
+   energy_eq_labelPoly (addLinear_wf hwf g b) (addLinear_sorted hs g b) x,
+   energy_eq_labelPoly (setLinear_wf hwf g b) (setLinear_sorted hs g b) x,
+   energy_eq_labelPoly (addQuadratic_wf hwf vt g h b) (addQuadratic_sorted hs vt g h b) x⟩
 
 /-- **Along every history of public CQM operations** (C05's `Cqm.Op`: building from handed-over models in their own variable
     order or through the views' mutators, `fix_variable(s)` in place, `remove_variable`, `relabel_variables`, `flip_variable`,
